@@ -1400,15 +1400,19 @@ def r54_zip_map_collect(text, base_line=0):
                     break
                 depth -= 1
             k += 1
-        tail = re.match(r"\)\s*\.collect::<([^;()]*?)>\(\)", text[k:])
+        tail = re.match(r"\)\s*\.collect(?:::<([^;()]*?)>)?\(\)", text[k:])
         if not tail:
-            raise LostAnchor("R54: `.collect::<T>()` does not follow the mapped closure")
+            raise LostAnchor("R54: `.collect()` does not follow the mapped closure")
         body = text[m.end():k].rstrip().rstrip(",").rstrip()
+        ty = tail.group(1)
+        if ty is None:      # no turbofish: nesting depth counted from the innermost, f32 leaf (static information only; rustc rejects a wrong annotation)
+            dd = 1 + max([x.count("Vec<") for x in re.findall(r"let mut __m_\w+: ((?:Vec<)+)f32", body)] or [0])
+            ty = "Vec<" * dd + "f32" + ">" * dd
         new = ("({ let mut __m_%s: %s = Vec::new(); for __q_%s in 0..(if %s.len() < %s.len() { %s.len() } else { %s.len() }) { let (%s, %s) = (&%s[__q_%s], &%s[__q_%s]); __m_%s.push("
-               % (a, tail.group(1), a, x, y, x, y, a, b, x, a, y, a, a)) + body + "); } __m_%s })" % a
+               % (a, ty, a, x, y, x, y, a, b, x, a, y, a, a)) + body + "); } __m_%s })" % a
         new += "\n" * max(0, text[m.start():k + tail.end()].count("\n") - new.count("\n"))
         log.append("R54 line %d: `%s.iter().zip(%s.iter()).map(|(%s, %s)| ..).collect::<%s>()` -> index loop over the shorter length pushing the closure value into a new vector"
-                   % (base_line + text.count("\n", 0, m.start()), x, y, a, b, tail.group(1)))
+                   % (base_line + text.count("\n", 0, m.start()), x, y, a, b, ty))
         text = text[:m.start()] + new + text[k + tail.end():]
 
 
